@@ -316,6 +316,28 @@ class RevisionMap:
         if deleted_revs:
             raise DependencyCycleDetected(sorted(deleted_revs))
 
+        # reachability from heads and bases does not rule out a cycle that
+        # is also reachable through a legitimate path; eliminate revisions
+        # whose down revisions are all eliminated and see what is left
+        for exc_cls, fn in (
+            (CycleDetected, lambda r: r._versioned_down_revisions),
+            (DependencyCycleDetected, lambda r: r._all_down_revisions),
+        ):
+            remaining = {
+                rev.revision: {d for d in fn(rev) if d in rev_map}
+                for rev in rev_map.values()
+            }
+            while True:
+                free = [r for r, downs in remaining.items() if not downs]
+                if not free:
+                    break
+                for r in free:
+                    del remaining[r]
+                for downs in remaining.values():
+                    downs.difference_update(free)
+            if remaining:
+                raise exc_cls(sorted(remaining))
+
     def _map_branch_labels(
         self, revisions: Collection[Revision], map_: _RevisionMapType
     ) -> None:
